@@ -2,6 +2,7 @@ package checks
 
 import (
 	"fmt"
+	"strings"
 	"time"
 
 	"verif/mc/engine"
@@ -61,6 +62,11 @@ func init() {
 			return m
 		},
 		Enum: func(tier string, e *engine.Emitter) {
+			// start from non-initial states: a and b are live results of Patch (built under each reading)
+			lv := c05LiveDocs()
+			for _, con := range []string{"none", "SET", "MULTISET", "replace:none", "replace:SET"} {
+				pairs(e, "c06live:"+con, "live/"+con, lv, lv)
+			}
 			for _, l := range c06Spaces(tier) {
 				pairs(e, "c06", l.Name, l.A, l.B)
 			}
@@ -284,7 +290,17 @@ func runC06(c *engine.Case) engine.Result {
 	var st c06stats
 	nh := 0
 	p := impl.Guard(func() {
-		d := impl.Read(c.A).Diff(impl.Read(c.B))
+		na, nb := impl.Read(c.A), impl.Read(c.B)
+		if strings.HasPrefix(c.Kind, "c06live:") {
+			con := strings.TrimPrefix(c.Kind, "c06live:")
+			if l, ok := impl.Live(c.A, con); ok && l.Json() == na.Json() {
+				na = l
+			}
+			if l, ok := impl.Live(c.B, con); ok && l.Json() == nb.Json() {
+				nb = l
+			}
+		}
+		d := na.Diff(nb)
 		res.Transitions++
 		text = d.Render()
 		hs, err := impl.Hunks(d)
